@@ -1061,6 +1061,7 @@ pub fn run(p: &Params) -> Run {
     not_texts(&mut run, &mut rng, n_stmt / 2);
     anchor_cases(&mut run);
     ts_text_compare_cases(&mut run, &mut rng);
+    input_column_cases(&mut run, &mut rng);
     tz_stream(&mut run, p);
     run.notes.push("statement level: SELECT lists mixing columns, qualified columns, expressions, `input`, `*`, aliases (also clashing ones) with WHERE; names checked against alias|column|p<i>; whole-run output = concatenation of the per-line outputs; three-way with Spec.Select".to_owned());
     run.notes.push("expression level: type-directed generator (≈ 80% well-typed, 20% with ill-typed sub-terms) + operator × type × type table".to_owned());
@@ -1128,6 +1129,47 @@ pub fn array_unique_cases(run: &mut Run, rng: &mut Rng, n: usize) {
 /// ANCHORS: a small table of calls with the answer written down by hand from the README's signatures and the usual
 /// meaning of the words — for the places where the oracle would otherwise only repeat the library call the code makes
 /// (`pow` / `sqrt` on REAL, `regex_matches`: a search, not a full match; first argument the text, second the pattern)
+/// "`input` denoting the raw line" — also in a table that has a COLUMN named `input` (a JSON log with an `input` field, a regex
+/// group called so): `input` in a projection, in WHERE and as an argument is the raw line, `*` still lists the column's value
+pub fn input_column_cases(run: &mut Run, rng: &mut Rng) {
+    use crate::c04::join_lines;
+    use crate::engine_run::{batch_case, prepare, run_files};
+    const DEFS: &[&str] = &[
+        "CREATE TABLE t(line = '^([a-z]+);([a-z ]*)$', line[1] => k TEXT, line[2] => input TEXT);",
+        "CREATE TABLE t(line = '^([a-z]+);([a-z ]*)$', line[2] => input TEXT, line[1] => k TEXT);",
+        "CREATE TABLE t({ .input } => input TEXT, { .k } => k TEXT);",
+    ];
+    for (di, defs) in DEFS.iter().enumerate() {
+        for _ in 0..6 {
+            let n = 1 + rng.below(4);
+            let lines: Vec<String> = (0..n).map(|_| {
+                let k = *rng.pick(&["a", "b", "zz"]); let v = *rng.pick(&["hello", "describe a cat", "", "x"]);
+                if di == 2 { format!("{{\"k\": \"{}\", \"input\": \"{}\"}}", k, v) } else { format!("{};{}", k, v) }
+            }).collect();
+            for q in ["SELECT input FROM t", "SELECT k, input FROM t", "SELECT length(input) AS n, k FROM t", "SELECT k FROM t WHERE input != 'x'"] {
+                let prepared = match prepare(defs, q) { Ok(p) => p, Err(_) => { run.count("input-column:rejected"); continue; } };
+                let files = vec![join_lines(&lines)];
+                let out = run_files(&prepared, &files);
+                let desc = format!("defs={} query={} input={:?}", defs, q, lines);
+                if let Some(case) = batch_case(&prepared, b"", &files, None) {
+                    run.case_with_desc(case, out.wire(), format!("input-column:{}:{}", di, out.status), desc.clone());
+                }
+                run.oracle_checks += 1;
+                if out.status != "ok" { run.fail(desc, "input-column-run-fails", format!("the run answers {}", out.status)); continue; }
+                let want: Vec<String> = match q {
+                    "SELECT input FROM t" => lines.iter().map(|l| format!("'{}'", l)).collect(),
+                    "SELECT k, input FROM t" => lines.iter().map(|l| { let k = if di == 2 { l.split('"').nth(3).unwrap_or("") } else { l.split(';').next().unwrap_or("") }; format!("k: '{}', input: '{}'", k, l) }).collect(),
+                    "SELECT length(input) AS n, k FROM t" => lines.iter().map(|l| { let k = if di == 2 { l.split('"').nth(3).unwrap_or("") } else { l.split(';').next().unwrap_or("") }; format!("n: {}, k: '{}'", l.chars().count(), k) }).collect(),
+                    _ => lines.iter().map(|l| { let k = if di == 2 { l.split('"').nth(3).unwrap_or("") } else { l.split(';').next().unwrap_or("") }; format!("k: '{}'", k) }).collect(),
+                };
+                if out.records() != want {
+                    run.fail(desc, "input-is-not-the-raw-line", format!("printed {:?}; with `input` the raw line the records are {:?}", out.records(), want));
+                }
+            }
+        }
+    }
+}
+
 /// a TIMESTAMP compared with a TEXT that is a timestamp literal — every operator, BOTH operand orders (`'text' > ts` must not be
 /// read as `ts > 'text'`), texts equal to / before / after the timestamp, and texts that are no literal
 pub fn ts_text_compare_cases(run: &mut Run, rng: &mut Rng) {
